@@ -50,9 +50,15 @@ VictimCases == {<<Setup(k), [Probe(k) EXCEPT !.keyOk = FALSE, !.path = pa, !.par
 CollideKinds == {"Scratchpad", "ScratchpadWithPayment", "Transaction", "TransactionWithPayment", "Chunk", "ChunkWithPayment"}
 CrossCases == {<<[Setup(k1) EXCEPT !.parse = "collide"], [Probe(k2) EXCEPT !.path = pa, !.parse = "collide", !.pay = IF k2 \in PaidKinds THEN OkPay ELSE NoPay]>> :
                   k1 \in {"Scratchpad", "Transaction", "Chunk"}, k2 \in CollideKinds, pa \in {"client", "repl"}}
+\* a copy of a held register whose owner-signed base carries OTHER permissions (same owner and label, hence the
+\* same address) and an operation of a writer the held register does not permit
+AltBaseCases == {<<Setup(k), [Probe(k) EXCEPT !.path = pa, !.parse = "altbase", !.ops = {[id |-> 2, ok |-> FALSE]},
+                                              !.pay = IF k \in PaidKinds THEN OkPay ELSE NoPay]>> :
+                    k \in {"Register", "RegisterWithPayment"}, pa \in {"client", "repl"}}
 SingleScenarios == {IF c[1] THEN <<Setup(c[2].kind), c[2]>> ELSE <<c[2]>> : c \in C03Cases \cup ParseCases}
               \cup {c \in VictimCases : Feasible0(c[2])}
               \cup {c \in CrossCases : Feasible0(c[2]) /\ Base(c[1].kind) # Base(c[2].kind)}
+              \cup {c \in AltBaseCases : Feasible0(c[2])}
 
 \* ---- C07 pools (one address per scenario)
 PadPool == {[D0 EXCEPT !.kind = k, !.path = pa, !.pay = IF k = "ScratchpadWithPayment" THEN OkPay ELSE NoPay,
@@ -100,7 +106,8 @@ PadIsHighestValid ==
 
 \* ---- case lists for the driver
 ToJsonD(d) == [path |-> d.path, kind |-> d.kind, key |-> IF d.keyOk THEN "derived" ELSE IF d.parse = "victim" THEN "victim" ELSE "other",
-               parse |-> IF d.parse \in {"victim", "collide"} THEN "ok" ELSE d.parse, collide |-> d.parse = "collide",
+               parse |-> IF d.parse \in {"victim", "collide", "altbase"} THEN "ok" ELSE d.parse, collide |-> d.parse = "collide",
+               base |-> IF d.parse = "altbase" THEN "alt" ELSE "std",
                pay |-> d.pay, c |-> d.pad.c, sig |-> d.pad.sig, content |-> d.pad.content,
                txs |-> SetToSeq({[id |-> t.id, sig |-> IF t.ok THEN "ok" ELSE "bad"] : t \in d.txs}),
                ops |-> SetToSeq({[id |-> o.id, sig |-> IF o.ok THEN "ok" ELSE "bad"] : o \in d.ops})]
